@@ -249,6 +249,43 @@ def through_value_copies(p: Path, val, depth: int = 0):
     return val
 
 
+def resolve_new_fields(ctx, p: Path, val):
+    """Rewrite reads of attributes of objects constructed on this path into the constructor argument they hold
+    (task = OptimizationTask(problem); task.problem is problem) - for attributes the constructor stores verbatim and
+    nobody else writes.  Works on version-stripped keys; returns a stripped value."""
+    if not isinstance(val, RF):
+        return val
+    mapping = {}
+    roles = roles_of(ctx)
+    for ne in new_events(p):
+        cls = ne.d['cls']
+        init = cls.lookup('__init__')
+        if init is None or ne.d.get('result') is None:
+            continue
+        ps = normal_paths(ctx.explorer().explore(init))
+        if not ps:
+            continue
+        selfk = ('var', init.param_names[0])
+        bound = dict(zip(init.param_names[1:], ne.d['args']))
+        bound.update(ne.d['kwargs'])
+        rk = strip_versions(key_of(ne.d['result']))
+        for (bk, fld), v in ps[0].state.heap.items():
+            if bk != selfk or not isinstance(v, RF) or not isinstance(fld, str):
+                continue
+            if any(key_of(q.state.heap.get((bk, fld))) != key_of(v) for q in ps[1:]):
+                continue            # not the same on every path of the constructor
+            a = v.single_atom()
+            if isinstance(a, tuple) and len(a) == 2 and a[0] == 'var' and a[1] in bound and \
+                    isinstance(bound[a[1]], RF) and not [m for m in roles.attr_writers(fld, cls)]:
+                mapping[('attr', rk, fld)] = strip_versions(key_of(bound[a[1]]))
+    out = strip_rf(val)
+    for _ in range(3):
+        if not mapping:
+            break
+        out = subst_rf(out, mapping)
+    return out
+
+
 def pop_event_of(p: Path, value, names=('popfirst',)) -> Optional[Event]:
     """The queue pop whose entry `value` is: the call result itself, or the entry re-packed component by component
     ((e[0], e[1]) / a NamedTuple built from them)."""
